@@ -59,6 +59,10 @@ def run_reports(prop, tier, seed, runs, replay_sub, assumptions, rule, scope, ex
         except subprocess.TimeoutExpired:
             cc.write_min_evidence(prop, tier, seed, time.time() - t0, 0, f"timeout on {label}")
             cc.inconclusive(f"property={prop} run {label} exceeded the time limit")
+        if p.returncode == 71:
+            cc.log(p.stdout[-1000:])
+            cc.write_min_evidence(prop, tier, seed, time.time() - t0, 0, f"watchdog: a case did not complete within 60 s on {label}")
+            cc.inconclusive(f"property={prop} run {label}: a generated case did not terminate within 60 s (normal cases take microseconds)")
         if p.returncode != 0 or not os.path.exists(out):
             cc.log(p.stdout[-2000:])
             cc.write_min_evidence(prop, tier, seed, time.time() - t0, 0, f"engine exit {p.returncode} on {label}")
